@@ -202,9 +202,15 @@ def extract_units(unit_names, repo=None, jobs=16):
             # (UpdateCheck.cpp's JsonValue).  Such a unit is re-parsed as C++17; the fallback is
             # recorded in the facts so that evidence can show it.
             cmd2 = ['-std=c++17' if a == '-std=c++20' else a for a in cmd]
+            r20 = r
             r = subprocess.run(cmd2, capture_output=True, text=True, cwd=repo)
             if r.returncode == 0 and os.path.exists(tmp):
                 STD_FALLBACK.add(u)
+            else:
+                # neither mode parses: report the C++20 diagnostics (the real build's mode).  Known front-end limit: clang 14
+                # cannot instantiate libstdc++ 12's std::ranges::subrange, so code calling std::ranges algorithms that return
+                # one (remove_if, unique, ...) cannot be analysed here at all.
+                r = r20
         if r.returncode != 0 or not os.path.exists(tmp):
             try:
                 os.unlink(tmp)
